@@ -321,6 +321,10 @@ def reject_candidates(maxlen):
         add(k.upper())
         add(k.lower())
         add(k + " ")
+        add(k + "\n")
+        add(k + "\t")
+        add("\n" + k)
+        add(k + "\n\n")
         add(" " + k)
         add(k + " major")
         add(k + "m")
